@@ -51,23 +51,25 @@ PROPS = {
                      "stackseq = straight-line random interleavings of pushes/pops/moves (length up to 64 quick / 2000 thorough) executed line by line "
                      "against the model and the reference; non-trivial = more than one instruction or a state change"
                      " l2i ishapes: requests generated from the CURRENT interpreter grammar (every alternative of every instruction production x every table entry x every memory-operand alternative); l2 mixseq: mixed straight-line sequences over all instruction classes."),
-    "C06": dict(modules=["Emu8086.Props.C06", "Emu8086.Props.C11"], runs=[("l2", "jumpx"), ("l2", "jump"), ("l3", "jumpspell"), ("l2i", "ishapes")], gen=["Arch", "ILiterals", "Jumps", "PPGrammar"],
+    "C06": dict(modules=["Emu8086.Props.C06", "Emu8086.Props.C11"], runs=[("l2", "jumpx"), ("l2", "jump"), ("l3", "jumpspell"), ("l2i", "ishapes"), ("l4", "run")], gen=["Arch", "ILiterals", "Jumps", "PPGrammar"],
                 rule="L2 jumpx: EVERY jump mnemonic of the interpreter x all 32 settings of CF/PF/ZF/SF/OF x 4 settings of the other flag bits "
                      "(x CX lattice + random for JCXZ/LOOP*); jump: random jumps/calls/rets/ints; non-trivial = outcome other than plain NEXT or CX changed"
                      " L3 jumpspell: every Intel jump/loop mnemonic in both cases through the real assembler, emitted jump must belong to its Intel class (request jsp)."
-                     " l2i ishapes: requests generated from the CURRENT interpreter grammar (every alternative x every table entry x every memory-operand alternative)."),
+                     " l2i ishapes: requests generated from the CURRENT interpreter grammar (every alternative x every table entry x every memory-operand alternative)."
+                     " L4 run: taken and not-taken jumps and LOOPs (incl. one-instruction delay loops) carried through by the real driver loop."),
     "C07": dict(modules=["Emu8086.Props.C07", "Emu8086.Props.C11"], runs=[("l2", "string"), ("l2", "rep"), ("l4", "strings"), ("l2i", "ishapes"), ("l2", "mixseq"), ("l2", "alias"), ("l3", "roles")], gen=["Arch", "ILiterals", "PPGrammar"],
                 rule="L2 string: single steps of every string instruction x width x DF x prefix on adversarial DS/ES/SI/DI; rep: the REPEAT protocol "
                      "driven to completion (the driver's loop) for every mnemonic x width x DF x prefix x CX in 0..64 (+255, 300; thorough also 4095, 32768, 65535), "
                      "with aliasing DS:SI/ES:DI and runs of equal bytes; non-trivial = CX != 0 or a state change"
                      " L4 strings: whole programs with every string mnemonic x width x DF x prefix run by the real binary's own REPEAT handling (plain and -i), over data that stops conditional repeats early, late or never."
                      " l2i ishapes: requests generated from the CURRENT interpreter grammar (every alternative of every instruction production x every table entry x every memory-operand alternative); l2 mixseq: mixed straight-line sequences over all instruction classes."),
-    "C09": dict(modules=["Emu8086.Props.C09", "Emu8086.Props.ExecAll"], runs=[("l2", "all"), ("l2", "malformed"), ("l2", "divx"), ("l2i", "ishapes"), ("l2", "mixseq"), ("l2", "alias")], gen=["Arch", "ILiterals"],
+    "C09": dict(modules=["Emu8086.Props.C09", "Emu8086.Props.ExecAll"], runs=[("l2", "all"), ("l2", "malformed"), ("l2", "divx"), ("l2i", "ishapes"), ("l2", "mixseq"), ("l2", "alias"), ("l4", "ints")], gen=["Arch", "ILiterals"],
                 rule="L2: every instruction class x adversarial machine states (registers from {0,1,7FFFh,8000h,FFFEh,FFFFh,random}, segments straddling 2^20, "
                      "counts 0..255, divisors 0/1/-1) with catch_unwind in an overflow-checking build: a PANIC of the real code is a violation; malformed = "
                      "near-miss lines the assembler never emits (must be a reported error in both); divx = MUL/IMUL/DIV/IDIV over the boundary lattice^3 of (AX, DX, operand) x 10 operand forms (divisors 0/1/-1, MIN dividends); non-trivial = outcome/state differs from plain NEXT"
-                     " l2i ishapes: requests generated from the CURRENT interpreter grammar (every alternative of every instruction production x every table entry x every memory-operand alternative); l2 mixseq: mixed straight-line sequences over all instruction classes."),
-    "C08": dict(modules=["Emu8086.Props.C08", "Emu8086.Props.C08Flow", "Emu8086.Props.C11"], runs=[("l4", "run"), ("l3", "progs"), ("l3", "jumpspell"), ("l3", "roles"), ("l4", "deep", {"VERIF_MODEL_FUEL": "400000"})], gen=["Arch", "ILiterals", "PPGrammar"],
+                     " l2i ishapes: requests generated from the CURRENT interpreter grammar (every alternative of every instruction production x every table entry x every memory-operand alternative); l2 mixseq: mixed straight-line sequences over all instruction classes."
+                     " L4 ints: the interrupt-request outcome carried through by the real driver (buffers and strings at the end of the 1 MB space, all AH values): exit 101 is a violation."),
+    "C08": dict(modules=["Emu8086.Props.C08", "Emu8086.Props.C08Flow", "Emu8086.Props.C11"], runs=[("l4", "run"), ("l3", "progs"), ("l3", "jumpspell"), ("l3", "roles"), ("l4", "deep", {"VERIF_MODEL_FUEL": "400000", "VERIF_CLI_TIMEOUT": "300"})], gen=["Arch", "ILiterals", "PPGrammar"],
                 rule="L4 run: structured terminating programs (procedures first, labels at every position incl. last / before procedures / macro uses / prints, "
                      "forward jumps, bounded LOOPs, calls of calls, start in the middle, code after hlt) executed by the REAL binary; the executed-instruction "
                      "trace, final registers and memory (verification hook) and stdout must equal the model's run loop; L3 progs: random whole programs through "
